@@ -227,6 +227,10 @@ def run(ctx) -> None:
                 ctx.violation(f"C18|{tag}|workers={'1' if W == 1 else 'n'}|creation_{outcome[0]}_{type(outcome[1]).__name__ if outcome[0] == 'raised' else ''}",
                               dict(source=source, L=L, chunksize=CS, groups=groups, passes=passes, W=W, error=repr(outcome[1])))
                 continue
+            if outcome[1] != L:
+                ctx.violation(f"C18|{tag}|any|stored_records_{'fewer' if outcome[1] < L else 'more'}_than_input",
+                              dict(source=source, L=L, chunksize=CS, groups=groups, passes=passes, W=W, stored=outcome[1]))
+                continue
             if source in ("hdf", "fits"):
                 events = column_passes(events, "/ra" if source == "hdf" else "ra")
             got, whole = split_passes(events)
